@@ -1,8 +1,8 @@
 CONSTANTS
-  MaxSeq = 2
-  MaxTasks = 4
+  MaxSeq = 3
+  MaxTasks = 5
   MaxEpoch = 2
-  MaxOps = 7
+  MaxOps = 8
   Dev = {}
 INIT Init
 NEXT Next
